@@ -16,8 +16,8 @@ for d in sorted(glob.glob(os.path.join(V, 'seeded', '*'))):
         needs = ' '.join(m.group(1).split())[:500]
     if not needs:
         needs = ' '.join(readme.split())[:400]
-    caught_by = [r.split()[1] for r in results if ' CAUGHT ' in r]
-    missed_by = [r.split()[1] for r in results if ' missed ' in r or ' inconclusive ' in r]
+    caught_by = [r.split()[1] for r in results if len(r.split()) > 2 and r.split()[2] == 'CAUGHT']
+    missed_by = [r.split()[1] for r in results if len(r.split()) > 2 and r.split()[2] in ('missed', 'inconclusive')]
     meta = {
         "seed": sid, "breaks_property": prop,
         "patch": "patch.diff", "demonstration": [os.path.basename(f) for f in glob.glob(os.path.join(d, '*_test.go'))],
